@@ -1,4 +1,5 @@
 import UtilModel.Lemmas.DateText
+import UtilModel.Lemmas.CodeTies
 /-!
 # C09 — Date parser accepts only real calendar dates and keeps their components
 
@@ -88,5 +89,11 @@ example : parse 10 false [50,48,50,50,45,48,50,45,51,48] = .err .invalid := by d
 example : parse 10 false [50,48,50,50,45,48,48,45,49,48] = .err .invalid := by decide          -- 2022-00-10
 example : parse 10 true [50,48,50,52,48,50,50,57] = .err .basicDisabled := by decide           -- 20240229
 example : parse 10 false [50,48,50,52,45,48,50,50,57] = .err .invalid := by decide             -- 2024-0229
+
+/-- **tie to the source**: `validDate` as translated from `date/parse.go` on this run equals the model's
+calendar check (which uses the Euclidean remainder; the translated Go uses `year%4 == 0 && (year%100 != 0 ||
+year%400 == 0)` — the two agree for every integer year) -/
+theorem validDate_code_tie (y : Int) (m d : Nat) : validDate y m d = Gen.date_validDate y m d :=
+  CodeTies.validDate_tie y m d
 
 end U.Props.C09
